@@ -1082,9 +1082,9 @@ func classifySink(lf *lexFacts, cx *lexCtx, st *lexState, call *ssa.Call, prevLo
 		si.class = "const"
 		si.set = constBytes(arg)
 		si.isBsl = endsInLoneBackslash(arg)
-		// a constant that is exactly the byte under the cursor (written in a branch that tested for it) is a copy of
-		// the source byte, spelled as a constant
-		if cb, single := st.cur.single(); single && si.set == setOf(cb) {
+		// a constant backslash written while the cursor stands on a backslash (in a branch that tested for it) is a copy
+		// of the source byte, spelled as a constant — not an escape the scanner adds
+		if cb, single := st.cur.single(); single && cb == '\\' && si.set == setOf(cb) {
 			si.class, si.direct, si.isBsl = "verbatim", true, false
 		}
 	case isByteSlice(arg.Type()):
